@@ -48,7 +48,7 @@ theorem ginv_empty (W : Colls) (hfresh : ∀ C, W.mem C → C.uid ≠ 0) : GInv 
 theorem ginv_step {W : Colls} {seen : List (Req × Forest)} {s s' : AggState} (hG : GInv W seen s)
     {r : Req} {G : Forest} (hr : FlatReq r G) (hW : W.mem r.2.1)
     (hfresh : r.1 ∉ seen.map (·.1.1) → ∀ p, p ∈ seen → p.1.2.1.uid ≠ r.2.1.uid)
-    (h : aggregate r.1 r.2.1 r.2.2 s = .ok ((), s')) : GInv W ((r, G) :: seen) s' := by
+    (h : aggregate r.1 r.2.1 r.2.2 s = .ok ((), s')) : GInv W ((r, G) :: seen) s' ∧ s'.cfg = s.cfg := by
   obtain ⟨name, types, kind⟩ := r
   simp only at hr hW hfresh h
   unfold aggregate at h
@@ -61,9 +61,9 @@ theorem ginv_step {W : Colls} {seen : List (Req × Forest)} {s s' : AggState} (h
     -- the name is imported already
     rw [hg] at h
     have hself : canon s.agg.redirects name = name := hN.canon_self (by rw [hg]; rfl)
-    obtain ⟨hT1, hi, hrd⟩ := hT.merge (r := (name, types, kind)) hr hW hg h (cls' := canon s.agg.redirects) hself
+    obtain ⟨hT1, hi, hrd, hcf⟩ := hT.merge (r := (name, types, kind)) hr hW hg h (cls' := canon s.agg.redirects) hself
       (fun _ _ => rfl)
-    refine ⟨by rw [hrd]; exact hT1, ?_⟩
+    refine ⟨⟨by rw [hrd]; exact hT1, ?_⟩, hcf⟩
     rw [hi, hrd]
     exact hN.exact (by rw [hg]; rfl)
   | none =>
@@ -87,13 +87,13 @@ theorem ginv_step {W : Colls} {seen : List (Req × Forest)} {s s' : AggState} (h
           exact findSemver_none hf hka (b, x) (amGet_mem _ _ _ hx) vb hkb
       have hfresh := hfresh hunseen
       have hself : canon s.agg.redirects name = name := hN'.canon_self (by rw [AggP.amGet_amInsert]; simp)
-      obtain ⟨hT1, hi, hrd⟩ := hT.fresh (r := (name, types, kind)) hr hW hfresh hg hrm (cls' := canon s.agg.redirects) hself
+      obtain ⟨hT1, hi, hrd, hcf⟩ := hT.fresh (r := (name, types, kind)) hr hW hfresh hg hrm (cls' := canon s.agg.redirects) hself
         (fun _ _ => rfl)
       rw [hi, hg] at h
       simp only [Option.isSome_none, Bool.false_eq_true, ↓reduceIte, run_modifyAgg, Except.ok.injEq, Prod.mk.injEq,
         true_and] at h
       subst h
-      refine ⟨?_, ?_⟩
+      refine ⟨⟨?_, ?_⟩, hcf⟩
       · have : (addImport s1 name k').agg.redirects = s.agg.redirects := hrd
         rw [show ({ s1 with agg := { s1.agg with imports := amInsert s1.agg.imports name k' } } : AggState) =
           addImport s1 name k' from rfl, this]
@@ -109,7 +109,7 @@ theorem ginv_step {W : Colls} {seen : List (Req × Forest)} {s s' : AggState} (h
       have hex : amGet s.agg.imports exName = some exKind := amGet_of_mem_nodup _ _ _ hN.nodup hmem
       have hexs : (amGet s.agg.imports exName).isSome = true := by rw [hex]; rfl
       -- class assignment after the merge: the new name belongs to the existing import
-      obtain ⟨hT1, hi, hrd⟩ := hT.merge (r := (name, types, kind)) hr hW hex hm
+      obtain ⟨hT1, hi, hrd, hcf⟩ := hT.merge (r := (name, types, kind)) hr hW hex hm
         (cls' := fun n => if n = name then exName else canon s.agg.redirects n) (by simp)
         (by
           intro p hp
@@ -132,7 +132,7 @@ theorem ginv_step {W : Colls} {seen : List (Req × Forest)} {s s' : AggState} (h
           rcases hN.seen name (by rw [← hpn]; exact List.mem_map.2 ⟨p, hp, rfl⟩) with h1 | h1
           · rw [hg] at h1; cases h1
           · rw [hnokey] at h1; cases h1
-        refine ⟨?_, ?_⟩
+        refine ⟨⟨?_, ?_⟩, hcf⟩
         · have := hT1.rename (name := name) (exName := exName) (m := exKind) (by rw [hi]; exact hex) (by rw [hi]; exact hg)
             (amInsert (repoint s1.agg.redirects exName name) exName name)
             (cls' := canon (amInsert (repoint s1.agg.redirects exName name) exName name))
@@ -178,7 +178,7 @@ theorem ginv_step {W : Colls} {seen : List (Req × Forest)} {s s' : AggState} (h
       · -- redirect
         simp only [hlt, Bool.false_eq_true, ↓reduceIte, run_modifyAgg, Except.ok.injEq, Prod.mk.injEq, true_and] at h
         subst h
-        refine ⟨?_, ?_⟩
+        refine ⟨⟨?_, ?_⟩, hcf⟩
         · have := (hT1.set_redirects (amInsert s1.agg.redirects name exName)).congr
             (cls' := canon (amInsert s1.agg.redirects name exName))
             (by
